@@ -89,13 +89,25 @@ impl QLog for CaptureLog {
 #[derive(Clone, Default)]
 pub struct MemStorage {
     pub files: Arc<Mutex<Vec<(String, Arc<Mutex<Vec<u8>>>)>>>,
+    /// the sink fails (disk full) once a file holds this many bytes: a short write up to the limit, then errors
+    pub fail_after: Option<usize>,
 }
 
-pub struct MemFile(Arc<Mutex<Vec<u8>>>);
+pub struct MemFile(Arc<Mutex<Vec<u8>>>, Option<usize>);
 
 impl tokio::io::AsyncWrite for MemFile {
     fn poll_write(self: std::pin::Pin<&mut Self>, _cx: &mut std::task::Context<'_>, buf: &[u8]) -> std::task::Poll<std::io::Result<usize>> {
-        self.0.lock().unwrap().extend_from_slice(buf);
+        let mut g = self.0.lock().unwrap();
+        if let Some(limit) = self.1 {
+            let room = limit.saturating_sub(g.len());
+            if room == 0 {
+                return std::task::Poll::Ready(Err(std::io::Error::other("simulated sink failure: no space left")));
+            }
+            let n = room.min(buf.len());
+            g.extend_from_slice(&buf[..n]);
+            return std::task::Poll::Ready(Ok(n));
+        }
+        g.extend_from_slice(buf);
         std::task::Poll::Ready(Ok(buf.len()))
     }
     fn poll_flush(self: std::pin::Pin<&mut Self>, _cx: &mut std::task::Context<'_>) -> std::task::Poll<std::io::Result<()>> {
@@ -110,6 +122,7 @@ impl qevent::telemetry::handy::TelemetryStorage for MemStorage {
     fn join(&self, file_name: &str) -> impl std::future::Future<Output = impl tokio::io::AsyncWrite + Send + Unpin + 'static> + Send + 'static {
         let buf = Arc::new(Mutex::new(Vec::new()));
         self.files.lock().unwrap().push((file_name.to_string(), buf.clone()));
-        async move { MemFile(buf) }
+        let limit = self.fail_after;
+        async move { MemFile(buf, limit) }
     }
 }
